@@ -1,5 +1,6 @@
 (* C18 - Search info lines are well-formed and within score bounds (model-level part). *)
 From Walleye Require Import Model.Search Proofs.MateText Proofs.RootInfo Proofs.RootOrder.
+From Walleye Require Import Spec.Abs Proofs.LegalMoves Proofs.RootPv.
 Open Scope Z_scope.
 
 (* the shape of the line: fixed keywords in fixed order around the numbers *)
@@ -30,6 +31,19 @@ Theorem C18_reported_scores_in_range : forall zt osort k fuel,
                    | Send _ => True end) ev.
 Proof. exact reported_scores_in_range. Qed.
 
+(* the first PV move of every info line, for every expiry index and ordering oracle that returns elements of its
+   input, in every well-formed position: it is the move sent with that line - the from/to squares of a generated
+   move of the searched position whose descriptor is a legal move of the rules (C01) *)
+Theorem C18_first_pv_move_is_legal : forall zt osort k,
+  (forall i l x, In x (osort i l) -> In x l) ->
+  forall fuel b t ev s d e line,
+  pos_ok1 b -> get_best_move zt osort k fuel b t = Ok (ev, s) -> In (Info d e line) ev ->
+  exists m a c mv tl rest,
+    In m (generate_moves zt b AllMoves) /\ last_move m = Some (a, c) /\ desc m = Some mv /\ In mv (legal_moves (abs b)) /\
+    line = s_info_pv ++ (32%N :: show_point a ++ show_point c ++ ponder_text tl) ++ rest.
+Proof. intros zt osort k HI fuel b t ev s d e line. exact (first_pv_move_is_legal zt osort k HI fuel b t ev s d e line). Qed.
+
+Print Assumptions C18_first_pv_move_is_legal.
 Print Assumptions C18_reported_scores_in_range.
 (* the reports of one search, newest first: every report lies strictly above all earlier ones - a later depth, or the
    same depth with a strictly larger score; so D never decreases and scores strictly increase within a depth,
